@@ -803,6 +803,15 @@ void instance_t::include_directive(char * line)
         {
         string base = (*iter).filename().string();
         if (glob.match(base)) {
+          // A file that is being read, here or further up the chain of
+          // includes, must not be read again from within itself
+          for (instance_t * instance = this; instance; instance = instance->parent)
+            if (! instance->context.pathname.empty() &&
+                exists(instance->context.pathname) &&
+                filesystem::equivalent(instance->context.pathname, *iter))
+              throw_(std::runtime_error,
+                     _f("File includes itself: %1%") % *iter);
+
           journal_t *  journal  = context.journal;
           account_t *  master   = top_account();
           scope_t *    scope    = context.scope;
